@@ -102,19 +102,25 @@ inductive Task
   | addDelayTimer (deadline : Nat)   -- `runAfter` from a foreign thread; weak reference inside
 deriving DecidableEq, Repr
 
+/-- A functor bound with a weak pointer behaves like a weak one only if the trampoline that runs it locks the
+pointer, tests the result and calls with the locked pointer (`locks`: `notifyLocks` for `notifyWriteComplete` /
+`notifyHighWaterMark`, `weakCallbackLocks` for `WeakCallback::operator()`, both extracted); otherwise it is a call
+through whatever the pointer refers to: the raw object -/
+def _root_.MuduoVerif.Gen.Conn.Hold.eff (h : Hold) (locks : Bool) : Hold := if h = .weak ∧ locks = false then .raw else h
+
 /-- what the functor holds of the connection (taken from the source where the hand-off is
-written; `connectDestroyed` is bound by the owner with its `TcpConnectionPtr`, the delayed
-close is a weak callback inside a timer) -/
+written, and - for the weak ones - from the trampoline that runs them; `connectDestroyed` is bound by the owner
+with its `TcpConnectionPtr`, the delayed close is a weak callback inside a timer) -/
 def Task.hold : Task → Hold
   | .connectDestroyed => .strong
-  | .writeComplete _ => wcHold
-  | .highWater _ _ => hwmHold
-  | .forceCloseInLoop => forceCloseHold
-  | .shutdownInLoop => shutdownHold
-  | .drainShutdownInLoop => drainShutdownHold
-  | .sendInLoop _ => sendPieceHold
-  | .startReadInLoop => startReadHold
-  | .stopReadInLoop => stopReadHold
+  | .writeComplete _ => wcHold.eff notifyLocks
+  | .highWater _ _ => hwmHold.eff notifyLocks
+  | .forceCloseInLoop => forceCloseHold.eff weakCallbackLocks
+  | .shutdownInLoop => shutdownHold.eff weakCallbackLocks
+  | .drainShutdownInLoop => drainShutdownHold.eff weakCallbackLocks
+  | .sendInLoop _ => sendPieceHold.eff weakCallbackLocks
+  | .startReadInLoop => startReadHold.eff weakCallbackLocks
+  | .stopReadInLoop => stopReadHold.eff weakCallbackLocks
   | .addDelayTimer _ => .weak
 
 /-- does the functor keep the connection alive? -/
@@ -376,7 +382,7 @@ def connectDestroyed (c : Conn) : Conn :=
 def fireDelay (c : Conn) : Conn :=
   if c.alive then actLoop c .forceClose
   -- the object is gone: a weak callback does nothing; anything else calls into freed memory
-  else if forceCloseDelayHold = .weak then c
+  else if forceCloseDelayHold.eff weakCallbackLocks = .weak then c
   else emit { c with dead := true } (.uaf "delayed forceClose() on a destroyed connection")
 
 def runTask (c : Conn) (t : Task) : Conn :=
